@@ -326,6 +326,35 @@ pub fn tricky_family() -> Vec<Content> {
     v
 }
 
+/// Raw data bytes that ECHO the archive's own strings: the bytes of a c-string / string / label
+/// name plus a NUL sitting in the data region, once under an annotated cell (whose bytes the
+/// writer overwrites), once in plain data — a writer that looks for existing copies of a string
+/// in the data, or a reader that trusts what it finds there, meets a coincidence here.
+pub fn echo_family() -> Vec<Content> {
+    let mut v = Vec::new();
+    for e in [End::Little, End::Big] {
+        for s in ["MID", "ab", "x", "abc"] {
+            let mut echo = s.as_bytes().to_vec();
+            echo.push(0);
+            echo.resize(4, 0);
+            for under in 0..4usize {
+                // cells: 0 pointer, 4 string, 8 c-string (the echoed one), 12 plain, 16 c-string
+                let mut c = Content::new(e);
+                c.data = vec![0x11; 20];
+                c.pointers.insert(0, 12);
+                c.strings.insert(4, format!("{}!", s));
+                c.cstrings.insert(8, s.to_string());
+                c.cstrings.insert(16, format!("{}{}", s, s));
+                let at = [0usize, 4, 12, 16][under];
+                c.data[at..at + 4].copy_from_slice(&echo);
+                c.labels.insert(12, vec![s.to_string()]);
+                v.push(c);
+            }
+        }
+    }
+    v
+}
+
 /// Label names whose code-point order and Shift-JIS byte order differ, on distinct addresses
 /// (big-endian sorts the table by name) — both address orders.
 pub fn collation_family() -> Vec<Content> {
@@ -350,6 +379,35 @@ pub fn collation_family() -> Vec<Content> {
 /// DENSE sweeps (every value, not a ladder): a string / c-string / label of every encoded
 /// length 0..=max_len (ASCII, and two-byte characters with an optional ASCII shift), and raw
 /// data of every length 0..=max_data with annotations on the first and last cell and the end.
+/// EVERY string length from 301 up to `max` bytes (one content per length; two-byte characters
+/// at even offsets for even lengths, behind a one-byte head for odd ones; the roles and byte
+/// orders rotate): block sizes of a reader or writer (64, 512, 1536, 4096 bytes) are all crossed
+/// at both parities.
+pub fn long_string_family(max: usize) -> Vec<Content> {
+    let mut v = Vec::new();
+    for k in 301..=max {
+        let s: String = if k % 2 == 0 { "漢字".chars().cycle().take(k / 2).collect::<String>() } else { "z".to_string() + &"ソ能".chars().cycle().take((k - 1) / 2).collect::<String>() };
+        let mut c = Content::new(if k % 4 < 2 { End::Little } else { End::Big });
+        c.data = vec![0; 8];
+        match (k / 2) % 3 {
+            0 => {
+                c.strings.insert(0, s.clone());
+                c.labels.insert(4, vec!["k".into()]);
+            }
+            1 => {
+                c.cstrings.insert(0, s.clone());
+                c.strings.insert(4, "short".into());
+            }
+            _ => {
+                c.labels.insert(0, vec![s.clone()]);
+                c.strings.insert(4, "short".into());
+            }
+        }
+        v.push(c);
+    }
+    v
+}
+
 pub fn dense_family(max_len: usize, max_data: usize) -> Vec<Content> {
     let mut v = Vec::new();
     for e in [End::Little, End::Big] {
@@ -432,6 +490,7 @@ pub fn many_labels_family() -> Vec<Content> {
 pub fn pair_family() -> Vec<Content> {
     let mut pairs: Vec<(String, String)> = vcore::collide::pairs().iter().map(|(_, a, b)| (a.clone(), b.clone())).collect();
     pairs.extend(vcore::sjis::suffix_pairs());
+    pairs.extend(vcore::sjis::case_pairs());
     pairs.extend(vcore::sjis::suffix_pairs().into_iter().map(|(a, b)| (b, a)));
     let mut v = Vec::new();
     for e in [End::Little, End::Big] {
